@@ -815,7 +815,7 @@ def literal_cases(seed, quick):
                 vals = {10 ** 100, (1 << 300) + 1, 0, 1, 12345678901234567890123456789}
             for _ in range(2 if quick else 20):
                 vals.add(rnd.randrange(0, hi + 2))
-            for v in sorted(vals):
+            for v in sorted(x for x in vals if x >= 0):
                 for prefix, base in (("", 10), ("0b", 2), ("0o", 8), ("0x", 16)):
                     body = to_base(v, base)
                     if base == 16 and rnd.random() < 0.5:
@@ -832,7 +832,7 @@ def literal_cases(seed, quick):
                      (-lo // unit) * unit + unit // 2, (hi // unit) * unit + (hi % unit) // 10 * 10 + 10}
             for _ in range(3 if quick else 30):
                 svals.add(rnd.randrange(0, hi + 2))
-            for v in sorted(svals):
+            for v in sorted(x for x in svals if x >= 0):
                 ip, fp = divmod(v, unit)
                 fs = str(fp).rjust(scale, "0")
                 fracs = {fs, fs.rstrip("0") or "0", fs + "0", fs + "1", fs[:max(1, scale // 2)], underscore(fs), fs[:-1] or "0"}
